@@ -606,4 +606,270 @@ theorem single_attempt_counted_once (cat : Catalog) (k : ScenKey) (ret : Option 
 example : obs kx (feedScen (catx 3) kx none {} (runAttempt exSpec 9).events) =
     (none, { passed := 0, skipped := 0, failed := 1, retried := 0 }) := by decide +kernel
 
+
+/-! ## Scenario classification with retries: the proved part -/
+set_option linter.unusedSimpArgs false
+
+/-- position `idx` of the declaration-ordered step list -/
+theorem stepList_drop (sp : AttemptSpec) (idx : Nat) (bg : Bool) (i : Nat) (rest : List (Bool × Nat))
+    (h : (stepList sp).drop idx = (bg, i) :: rest) :
+    (bg = false → (i + 1 = sp.nsteps ↔ rest = [])) ∧ rest = (stepList sp).drop (idx + 1) ∧
+    (bg = false → sp.nsteps > 0) ∧ (bg = true → sp.nsteps > 0 → rest ≠ []) := by
+  have hlen : (stepList sp).length = sp.nbg + sp.nsteps := by simp [stepList]
+  have hrest : rest = (stepList sp).drop (idx + 1) := by
+    have := congrArg (List.drop 1) h
+    simpa [drop_drop, Nat.add_comm] using this.symm
+  have hidx : idx < (stepList sp).length := by
+    by_cases hc : idx < (stepList sp).length
+    · exact hc
+    · have : (stepList sp).drop idx = [] := drop_eq_nil_of_le (by omega)
+      rw [this] at h; cases h
+  have helem : (stepList sp)[idx]? = some (bg, i) := by
+    have := congrArg List.head? h
+    simpa [head?_drop] using this
+  have hbgcase : bg = true → sp.nsteps > 0 → rest ≠ [] := by
+    intro hb hn hnil
+    have hlt : idx < sp.nbg := by
+      by_cases hlt : idx < sp.nbg
+      · exact hlt
+      · simp only [stepList] at helem
+        rw [getElem?_append_right (by simpa using hlt)] at helem
+        simp at helem
+        have hl : idx - sp.nbg < sp.nsteps := by rw [hlen] at hidx; omega
+        subst hb
+        simp [hl] at helem
+    have hpos : 0 < ((stepList sp).drop (idx + 1)).length := by rw [length_drop, hlen]; omega
+    rw [← hrest, hnil] at hpos; simp at hpos
+  suffices hmain : bg = false → ((i + 1 = sp.nsteps ↔ rest = []) ∧ sp.nsteps > 0) from
+    ⟨fun hb => (hmain hb).1, hrest, fun hb => (hmain hb).2, hbgcase⟩
+  intro hb
+  -- the element at position idx
+  have hval : idx ≥ sp.nbg ∧ i = idx - sp.nbg := by
+    simp only [stepList] at helem
+    by_cases hlt : idx < sp.nbg
+    · rw [getElem?_append_left (by simpa using hlt)] at helem
+      simp [hlt] at helem
+      exact absurd helem.1.symm (by simp [hb])
+    · rw [getElem?_append_right (by simpa using hlt)] at helem
+      simp at helem
+      have hl : idx - sp.nbg < sp.nsteps := by rw [hlen] at hidx; omega
+      simp [hl] at helem
+      exact ⟨by omega, by omega⟩
+  refine ⟨?_, by rw [hlen] at hidx; omega⟩
+  rw [hrest]
+  constructor
+  · intro h1
+    apply drop_eq_nil_of_le
+    rw [hlen]; omega
+  · intro h1
+    have : (stepList sp).length ≤ idx + 1 := by
+      by_cases hc : (stepList sp).length ≤ idx + 1
+      · exact hc
+      · have hpos : 0 < ((stepList sp).drop (idx + 1)).length := by rw [length_drop]; omega
+        rw [h1] at hpos; simp at hpos
+    rw [hlen] at this hidx
+    omega
+
+
+/-- folding the step part of a canonical attempt from ANY observation `o` (before the deferred failure) -/
+theorem fold_specSteps_gen (ret : Option Retries) (n : Nat) (sp : AttemptSpec) (hn : n = sp.nsteps)
+    (o : Option Indicator × Stats) (l : List (Bool × Nat)) (idx : Nat) (hl : (stepList sp).drop idx = l) :
+    (specSteps sp idx l).1.foldl (obsStep ret n) o =
+      match (specSteps sp idx l).2 with
+      | .skipped => (some .skipped, { o.2 with skipped := o.2.skipped + 1 })
+      | .none => if sp.nsteps > 0 ∧ l ≠ [] then (none, o.2) else o
+      | _ => o := by
+  induction l generalizing idx o with
+  | nil => simp [specSteps]
+  | cons s rest ih =>
+    obtain ⟨bg, i⟩ := s
+    obtain ⟨hlast, hrest, hown, hbgn⟩ := stepList_drop sp idx bg i rest hl
+    simp only [specSteps]
+    cases h : effRes sp idx bg i with
+    | started => exact absurd h (effRes_ne_started sp idx bg i)
+    | skipped => cases bg <;> simp [stepEv, obsStep, obsStep.stepObs]
+    | failed e => cases bg <;> simp [stepEv, obsStep, obsStep.stepObs]
+    | passed =>
+      simp only [foldl_cons]
+      have h1 : obsStep ret n o (stepEv bg i .started) = o := by
+        cases bg <;> simp [stepEv, obsStep, obsStep.stepObs]
+      rw [h1]
+      cases bg with
+      | true =>
+        have h2 : obsStep ret n o (stepEv true i .passed) = o := by simp [stepEv, obsStep, obsStep.stepObs]
+        rw [h2, ih o (idx + 1) hrest.symm]
+        cases hst : (specSteps sp (idx + 1) rest).2 <;> simp
+        by_cases hp : sp.nsteps > 0
+        · have := hbgn rfl hp
+          simp [hp, this]
+        · simp [hp]
+      | false =>
+        have hpos := hown rfl
+        by_cases hi : i + 1 = sp.nsteps
+        · have hnil := (hlast rfl).mp hi
+          subst hnil
+          have h2 : obsStep ret n o (stepEv false i .passed) = (none, o.2) := by
+            simp [stepEv, obsStep, obsStep.stepObs, hn, hi]
+          rw [h2]
+          simp [specSteps, hpos]
+        · have hne : rest ≠ [] := fun hc => hi ((hlast rfl).mpr hc)
+          have h2 : obsStep ret n o (stepEv false i .passed) = o := by
+            simp [stepEv, obsStep, obsStep.stepObs, hn, hi]
+          rw [h2, ih o (idx + 1) hrest.symm]
+          cases hst : (specSteps sp (idx + 1) rest).2 <;> simp [hpos, hne]
+
+
+/-- the events of an attempt whose before hook (if any) passes, folded from any observation -/
+theorem fold_attempt_before_ok (ret : Option Retries) (n : Nat) (sp : AttemptSpec) (hn : n = sp.nsteps)
+    (hb : (specBefore sp).2 = .none) (o : Option Indicator × Stats) :
+    (specEvents sp).foldl (obsStep ret n) o =
+      obsStep ret n
+        ((specAfter sp).foldl (obsStep ret n)
+          ((specSteps sp 0 (stepList sp)).2.deferred.foldl (obsStep ret n)
+            ((specSteps sp 0 (stepList sp)).1.foldl (obsStep ret n) o))) .finished := by
+  unfold specEvents specStop
+  have hbe : (specBefore sp).1 = [] ∨ (specBefore sp).1 = [.hook .before .started, .hook .before .passed] := by
+    unfold specBefore at hb ⊢
+    split
+    · split
+      · split
+        · right; rfl
+        · simp_all
+      · simp_all
+    · left; rfl
+  simp only [hb, foldl_append, foldl_cons, foldl_nil]
+  have hstart : obsStep ret n o ScenEv.started = o := rfl
+  rw [hstart]
+  rcases hbe with h | h <;> rw [h] <;> simp [obsStep, HookRes.isFailed]
+
+/-- **A retried attempt** (a step fails with a retry left, no hook fails) leaves the scenario marked
+    `Retried` and counts it as retried at most once. -/
+theorem retried_attempt (cat : Catalog) (k : ScenKey) (ret : Option Retries) (sp : AttemptSpec) (wid : Nat) (s : Summ)
+    (hn : cat.nsteps k = sp.nsteps) (hb : (specBefore sp).2 = .none) (haf : afterFailed sp = false)
+    (bg : Bool) (i : Nat) (err : StepErr) (hstop : (specSteps sp 0 (stepList sp)).2 = .failed (stepEv bg i (.failed err)))
+    (hret : isRetriedFailure ret err = true)
+    (hk : s.handled.get k = none ∨ s.handled.get k = some .retried) :
+    obs k (feedScen cat k ret s (runAttempt sp wid).events) =
+      (some .retried, if (s.handled.get k).isNone then { s.scenarios with retried := s.scenarios.retried + 1 } else s.scenarios) := by
+  rw [obs_feed, runAttempt_canonical, fold_attempt_before_ok ret _ sp hn hb,
+    fold_specSteps_gen ret _ sp hn _ (stepList sp) 0 (by simp), hstop, afterFold, haf]
+  simp only [Stop.deferred, foldl_cons, foldl_nil, Bool.false_eq_true, if_false]
+  rcases hk with hk | hk <;> cases bg <;>
+    simp [obs, hk, stepEv, obsStep, obsStep.stepObs, hret]
+
+/-- **The last attempt after retries** (no retry left; its before hook passes; if every step passes the
+    scenario has own steps) is counted exactly once in its class, and the `Retried` mark is cleared. -/
+theorem final_attempt_after_retries (cat : Catalog) (k : ScenKey) (ret : Option Retries) (sp : AttemptSpec) (wid : Nat)
+    (s : Summ) (hn : cat.nsteps k = sp.nsteps) (hret : ∀ err, isRetriedFailure ret err = false)
+    (hb : (specBefore sp).2 = .none) (hown : (specSteps sp 0 (stepList sp)).2 = .none → sp.nsteps > 0)
+    (hk : s.handled.get k = some .retried) :
+    obs k (feedScen cat k ret s (runAttempt sp wid).events) = (none, attemptClass sp wid s.scenarios) := by
+  have hfailed : (runAttempt sp wid).failed = ((specStop sp).isFailure || afterFailed sp) := by
+    simp [runAttempt, (runBody_spec sp wid).2]
+  have hreason : (runAttempt sp wid).reason = reasonOf (specStop sp) := by
+    simp [runAttempt, (runBody_spec sp wid).2]
+  have hstopeq : specStop sp = (specSteps sp 0 (stepList sp)).2 := by
+    unfold specStop; rw [hb]
+  rw [obs_feed, runAttempt_canonical, fold_attempt_before_ok ret _ sp hn hb,
+    fold_specSteps_gen ret _ sp hn _ (stepList sp) 0 (by simp), afterFold]
+  unfold attemptClass
+  rw [hfailed, hreason, hstopeq]
+  have hobs : obs k s = (some .retried, s.scenarios) := by simp [obs, hk]
+  rw [hobs]
+  cases hst : (specSteps sp 0 (stepList sp)).2 with
+  | failed ev =>
+    obtain ⟨bg, i, e, rfl⟩ := specSteps_failed_shape sp _ _ ev hst
+    cases haf : afterFailed sp <;> cases bg <;>
+      simp [Stop.deferred, Stop.isFailure, reasonOf, stepEv, obsStep, obsStep.stepObs, HookRes.isFailed, hret]
+  | beforeFailed ev => exact absurd hst (specSteps_not_beforeFailed sp _ _ ev)
+  | skipped =>
+    cases haf : afterFailed sp <;>
+      simp [Stop.deferred, Stop.isFailure, reasonOf, obsStep, obsStep.stepObs, HookRes.isFailed, hret]
+  | none =>
+    have hpos := hown hst
+    have hne : stepList sp ≠ [] := by
+      intro h0
+      have : (stepList sp).length = sp.nbg + sp.nsteps := by simp [stepList]
+      rw [h0] at this; simp at this; omega
+    cases haf : afterFailed sp <;>
+      simp [Stop.deferred, Stop.isFailure, reasonOf, obsStep, obsStep.stepObs, HookRes.isFailed, hret, hpos, hne]
+
+
+/-- an attempt description: (retry counter, outcome spec, id of the World it would create) -/
+abbrev Att := Option Retries × AttemptSpec × Nat
+
+/-- an attempt that is retried for the reason the property has in mind: a step fails with a retry left
+    (and nothing else goes wrong: no hook fails — the histories of findings F-C12a/b are excluded) -/
+structure RetriedOk (cat : Catalog) (k : ScenKey) (a : Att) : Prop where
+  nsteps : cat.nsteps k = a.2.1.nsteps
+  beforeOk : (specBefore a.2.1).2 = .none
+  afterOk : afterFailed a.2.1 = false
+  stepFails : ∃ bg i err, (specSteps a.2.1 0 (stepList a.2.1)).2 = .failed (stepEv bg i (.failed err)) ∧
+    isRetriedFailure a.1 err = true
+
+def feedAtts (cat : Catalog) (k : ScenKey) (s : Summ) (atts : List Att) : Summ :=
+  atts.foldl (fun s a => feedScen cat k a.1 s (runAttempt a.2.1 a.2.2).events) s
+
+theorem retried_chain (cat : Catalog) (k : ScenKey) (rs : List Att) (hrs : ∀ a ∈ rs, RetriedOk cat k a) (s : Summ)
+    (hk : s.handled.get k = none ∨ s.handled.get k = some .retried) (hne : rs ≠ []) :
+    obs k (feedAtts cat k s rs) =
+      (some .retried, if (s.handled.get k).isNone then { s.scenarios with retried := s.scenarios.retried + 1 } else s.scenarios) := by
+  induction rs generalizing s with
+  | nil => exact absurd rfl hne
+  | cons a rest ih =>
+    obtain ⟨h1, h2, h3, bg, i, err, h4, h5⟩ := hrs a (by simp)
+    have hstep := retried_attempt cat k a.1 a.2.1 a.2.2 s h1 h2 h3 bg i err h4 h5 hk
+    simp only [feedAtts, foldl_cons]
+    by_cases hr : rest = []
+    · subst hr; simpa using hstep
+    · have hk' : (feedScen cat k a.1 s (runAttempt a.2.1 a.2.2).events).handled.get k = some .retried := by
+        have := congrArg Prod.fst hstep; simpa [obs] using this
+      have := ih (fun x hx => hrs x (by simp [hx])) _ (Or.inr hk') hr
+      simp only [feedAtts] at this
+      rw [this, hk']
+      have hsc := congrArg Prod.snd hstep
+      simp only [obs] at hsc
+      simp [hsc]
+
+/-- **Scenario classification by the last attempt (proved part).** A scenario whose earlier attempts were
+    retried because a step failed (no hook failure), and whose last attempt — no retry left — is any attempt
+    of the C02 model (if there were retries: its before hook passes, and if all its steps pass it has own
+    steps), is counted exactly ONCE, in the class of that last attempt, and at most once as retried.
+    The excluded histories are exactly the patterns of findings F-C12a / F-C12b / F-C12c. -/
+theorem scenario_counted_by_last_attempt (cat : Catalog) (k : ScenKey) (s : Summ) (rs : List Att) (last : Att)
+    (hk : s.handled.get k = none) (hrs : ∀ a ∈ rs, RetriedOk cat k a)
+    (hn : cat.nsteps k = last.2.1.nsteps) (hret : ∀ err, isRetriedFailure last.1 err = false)
+    (hlast : rs ≠ [] → (specBefore last.2.1).2 = .none ∧
+      ((specSteps last.2.1 0 (stepList last.2.1)).2 = .none → last.2.1.nsteps > 0)) :
+    obs k (feedScen cat k last.1 (feedAtts cat k s rs) (runAttempt last.2.1 last.2.2).events) =
+      (none, attemptClass last.2.1 last.2.2
+        (if rs = [] then s.scenarios else { s.scenarios with retried := s.scenarios.retried + 1 })) := by
+  by_cases hr : rs = []
+  · subst hr
+    simpa [feedAtts] using single_attempt_counted_once cat k last.1 last.2.1 last.2.2 s hn hret hk
+  · have hchain := retried_chain cat k rs hrs s (Or.inl hk) hr
+    have hk' : (feedAtts cat k s rs).handled.get k = some .retried := by
+      have := congrArg Prod.fst hchain; simpa [obs] using this
+    have hsc : (feedAtts cat k s rs).scenarios = { s.scenarios with retried := s.scenarios.retried + 1 } := by
+      have := congrArg Prod.snd hchain; simpa [obs, hk] using this
+    obtain ⟨hb, hown⟩ := hlast hr
+    rw [final_attempt_after_retries cat k last.1 last.2.1 last.2.2 _ hn hret hb hown hk', hsc]
+    simp [hr]
+
+
+/-- non-vacuity: a first attempt whose second step panics with a retry left, then a passing last attempt:
+    the hypotheses hold and the scenario is counted once as passed and once as retried -/
+def flakyFirst : AttemptSpec :=
+  { hasBefore := true, hasAfter := true, nbg := 1, nsteps := 2, init := .ok, before := .pass, after := .pass,
+    bgOut := fun _ => .pass, stepOut := fun i => if i = 1 then .panic 4 else .pass }
+def passingLast : AttemptSpec := { flakyFirst with stepOut := fun _ => .pass }
+
+example : (specBefore flakyFirst).2 = .none ∧ afterFailed flakyFirst = false ∧
+    (specSteps flakyFirst 0 (stepList flakyFirst)).2 = .failed (stepEv false 1 (.failed (.panic 4))) ∧
+    isRetriedFailure (some ⟨0, 1⟩) (.panic 4) = true := by decide +kernel
+
+example : obs kx (feedScen (catx 2) kx (some ⟨1, 0⟩) (feedAtts (catx 2) kx {} [(some ⟨0, 1⟩, flakyFirst, 7)])
+      (runAttempt passingLast 8).events) =
+    (none, { passed := 1, skipped := 0, failed := 0, retried := 1 }) := by decide +kernel
+
 end Cuke.C12
